@@ -58,6 +58,8 @@ var StrPool = []string{
 	"é", "日本語", "aé日😀b", "ééé", "true", "false", "ABC", "abcabc", "ab", "bc", "b", "c",
 	" 5", "5 ", " 1", "\f1", "1_0", "0b1", "0o7", "1.0e0", "12abc", "x'y", "a  b   c",
 	" lead", "trail ", "日本", "本", "😀", "á", "0.1", "1.50", "007", "3.0",
+	// a backslash is a character like any other in an XPath literal (there are no escapes)
+	"a\\b", "a\\\\b", "\\", "C:\\", "\\n", "x\\", "\\\\",
 }
 
 var strNumericPool = []string{"1", "2", "3", "10", "2.5", "-1", "0", " 7 ", "abc", ""}
